@@ -218,6 +218,30 @@ def run(prog, rep, tier):
         rep.violation(R94, bd.path + "|distinct", "JournalReader: renderings %s are dispatched identically (same renderer and constants)" % sorted(dup))
     rep.floor(R94, 8)
 
+    # ------------------------------------------------------------ R9.6 (lift: C05 rules at the extraction sites)
+    # "A compressed or archived journal file prints the same as the plain file": the file is unpacked by
+    # filedecompressor::decompress_to_ntf; the decoder-loop rules of C05 decide that the unpacked bytes
+    # are complete (short reads are not end of data, every loop makes progress or stops).
+    import contextlib as _ctx, io as _io
+    import c05 as _c05
+    from common import Report as _Report
+    R96L = rep.rule("R9.6", "the temporary extraction is complete (from C05 R5.1/R5.1b/R5.1c/R5.3 at filedecompressor sites)")
+    _sub = _Report("C05", "quick", dict(rep.meta))
+    _sub.finish = lambda *a, **k: 0
+    with _ctx.redirect_stdout(_io.StringIO()):
+        _c05.run(prog, _sub, "quick")
+    _n = 0
+    for _rid, _r in sorted(_sub.rules.items()):
+        for _k in sorted(_r.get("keys", ())):
+            if "filedecompressor" in _k or "decompress_to_ntf" in _k:
+                _n += 1
+                rep.examined(R96L, "%s|%s" % (_rid, _k), sample={"rule": _rid, "instance": _k})
+    for (_rid, _key, _what, _detail) in _sub.violations:
+        if "filedecompressor" in _key or "decompress_to_ntf" in _key:
+            rep.violation(R96L, _key.split("|", 1)[1] + "|" + _rid, _what)
+    if _n < 3:
+        raise CheckerError("R9.6: only %d C05 instances at filedecompressor sites" % _n)
+
     # ------------------------------------------------------------ R9.5 (shared instant-preservation lint)
     import instant
     R95i = rep.rule("R9.5", "conversions between the window's datetime and the journal realtime timestamp preserve the instant")
